@@ -76,6 +76,8 @@ def snap_fraction(fr, maxden=10**6):
     otherwise the exact value of the float.  Never looks at the model's answer."""
     if fr is None:
         return None
+    if fr.denominator <= 2 ** 40:      # a short dyadic value is what it is: keep it exact
+        return fr
     s = fr.limit_denominator(maxden)
     if abs(s - fr) <= Fraction(1, 10**9) * max(1, abs(fr)):
         return s
